@@ -17,10 +17,14 @@
       longitude interval to the pole corner's nominal longitude, the repaired one does not
       (`asis_pole_corner_longitude`); both pole loops enclose every corner
       (`pole_loop_encloses_nodes`); a face FLAGGED as enclosing a pole gets that pole's latitude
-      and, when no edge touches the pole, the full circle (`pole_face_partial`); the flag itself —
+      and, when no edge touches the pole, the full circle (`pole_face_partial`); the AS-IS flag —
       the parity count of `_pole_point_inside_polygon` — is wrong on an equatorial face around
       (lon 0, lat 0) and on a polar cap with a corner on the reference meridian
-      (`asis_false_pole`, `asis_pole_missed`, decided over `Int`; known findings);
+      (`asis_false_pole`, `asis_pole_missed`, decided over `Int`; repaired by
+      `fixes/C13-pole-winding.patch`); the REPAIRED flag is the winding of the boundary about the
+      polar axis: for every closed ring off the axis the winding is an integer multiple of 2π
+      (`winding_multiple_of_two_pi`), the flag is raised exactly when that integer is non-zero and
+      then for exactly one pole (`pole_flag_iff_winding`);
   §C  the arc (ordered field / ℝ): `circle_apex_bound` (Cauchy–Schwarz), the code's `d_a_max` is
       THE stationary parameter (`extreme_param_stationary`), the chord point at `d_a_max` attains
       the great circle's bound (`apex_attains_bound`), therefore dominates every point of the
@@ -30,14 +34,16 @@
       repaired normal-face loop fed with it encloses every point of every edge
       (`lat_encloses_every_arc_point`).
 
-  Not proved (decided by the driver's sampling oracle on every generated face): that the parity
-  flag agrees with "the pole is strictly inside" (it does not always, see above); that the corner
+  Not proved (decided by the driver's sampling oracle on every generated face): that the winding
+  number of a convex face is ±1 exactly when a pole is strictly inside and that the orientation test
+  picks the right pole (argument principle for the projected polygon); that the corner
   longitudes of a face span its boundary (longitude is monotone along an arc that misses the poles
   — geometry, used by the oracle); tightness by attainment (proved
   for the latitude bounds of normal faces by `lat_bounds_attained`; pole faces and the longitude
   ends are tested); IEEE rounding and the `ERROR_TOLERANCE` clip / pole snap of the float code.
 -/
 import Mathlib.Analysis.SpecialFunctions.Sqrt
+import Mathlib.Analysis.SpecialFunctions.Complex.Arg
 import Mathlib.Tactic.Ring
 import Mathlib.Tactic.Linarith
 import Mathlib.Tactic.LinearCombination
@@ -773,7 +779,8 @@ def sameDir (p q : V3 Int) : Bool :=
 
 def fnI : Fn Int :=
   { sqrt := id, asin := id, abs := fun x => if x < 0 then -x else x, close := eqI,
-    tol := 0, eps := 0, normalize := id, samePt := sameDir, nearPt := sameDir }
+    tol := 0, eps := 0, normalize := id, samePt := sameDir, nearPt := sameDir,
+    atan2 := fun _ _ => 0, pi := 1 }
 
 def faceI (l : List (V3 Int)) : List (Edge Int) :=
   (Oracle.cyc l).map fun e => ⟨e.1, e.2, 0, 0, 0, 0⟩
@@ -859,9 +866,10 @@ theorem poleLoop_not_centre (c : Consts K) (v : Variant) (north : Bool) (es : Li
     pole's latitude as the bound on that side, and — when no edge touches the pole (no corner on
     it, no edge through it) — the full longitude circle `[0, 2π]`.
     Full statement (property): the same with "the pole lies strictly inside the face" in place of
-    the flag.  The flag itself is NOT proved to agree with the geometry — it does not:
-    `asis_pole_missed`, `asis_false_pole` (known findings); the agreement is tested on every
-    generated face against the orientation determinants. -/
+    the flag.  The AS-IS flag (parity count) does not agree with the geometry: `asis_pole_missed`,
+    `asis_false_pole`.  The REPAIRED flag is the winding number of the boundary about the polar axis
+    (`pole_flag_iff_winding` below); that a convex face has winding number ±1 iff a pole is strictly
+    inside is tested on every generated face against the orientation determinants, not proved. -/
 theorem pole_face_partial (c : Consts K) (close : K → K → Bool) (v : Variant) (hasN hasS : Bool)
     (es : List (ES K)) (hne : es ≠ []) (hflag : hasN = true ∨ hasS = true) :
     (∃ lo hi, (runFace c close v hasN hasS es).lat = some (lo, hi) ∧
@@ -1406,7 +1414,8 @@ theorem extreme_sin_encloses_min (a b : V3 ℝ) (ha : dot a a = 1) (hb : dot b b
     tolerance snapping -/
 noncomputable def realFn (f : ℝ → ℝ) : Fn ℝ :=
   { sqrt := Real.sqrt, asin := f, abs := fun x => |x|, close := fun _ _ => false, tol := 0, eps := 0,
-    normalize := id, samePt := fun _ _ => false, nearPt := fun _ _ => false }
+    normalize := id, samePt := fun _ _ => false, nearPt := fun _ _ => false,
+    atan2 := fun y x => Complex.arg ⟨x, y⟩, pi := Real.pi }
 
 theorem z_sq_le_normSq (p : V3 ℝ) : p.z ^ 2 ≤ dot p p := by
   obtain ⟨x, y, z⟩ := p
@@ -1508,5 +1517,138 @@ theorem lat_encloses_every_arc_point (f : ℝ → ℝ) (hf : Monotone f) (c : Co
   exact hasLat_between _ _ _ _ h.2.2 h.2.1 hb'.1 hb'.2
 
 end capstone
+
+/-! ### the repaired pole test: winding about the polar axis -/
+section windingThm
+
+/-- horizontal projection of a point, as a complex number -/
+noncomputable def hz (a : V3 ℝ) : ℂ := ⟨a.x, a.y⟩
+
+/-- consecutive pairs of a list -/
+def pairs {α : Type} : List α → List (α × α)
+  | x :: y :: t => (x, y) :: pairs (y :: t)
+  | _ => []
+
+theorem zip_eq_pairs {α : Type} (a : α) (as : List α) (b : α) :
+    (a :: as).zip (as ++ [b]) = pairs (a :: as ++ [b]) := by
+  induction as generalizing a with
+  | nil => rfl
+  | cons c t ih =>
+    show (a, c) :: (c :: t).zip (t ++ [b]) = (a, c) :: pairs (c :: t ++ [b])
+    rw [ih]
+
+theorem cyc_eq_pairs {α : Type} (a : α) (as : List α) :
+    Oracle.cyc (a :: as) = pairs (a :: as ++ [a]) := zip_eq_pairs a as a
+
+/-- the increment is the difference of the arguments of the horizontal projections (as angles) -/
+theorem lonIncrement_angle (f : ℝ → ℝ) (a b : V3 ℝ) (ha : hz a ≠ 0) (hb : hz b ≠ 0) :
+    ((lonIncrement (realFn f) a b : ℝ) : Real.Angle)
+      = (Complex.arg (hz b) : Real.Angle) - (Complex.arg (hz a) : Real.Angle) := by
+  have e : (⟨a.x * b.x + a.y * b.y, a.x * b.y - a.y * b.x⟩ : ℂ) = (starRingEnd ℂ) (hz a) * hz b := by
+    apply Complex.ext <;> (simp [hz]; try ring)
+  show ((Complex.arg ⟨a.x * b.x + a.y * b.y, a.x * b.y - a.y * b.x⟩ : ℝ) : Real.Angle) = _
+  rw [e, Complex.arg_mul_coe_angle ((map_ne_zero _).mpr ha) hb, Complex.arg_conj_coe_angle]
+  abel
+
+/-- last element of the non-empty list `x :: l` -/
+def lastOf {α : Type} : α → List α → α
+  | x, [] => x
+  | _, y :: t => lastOf y t
+
+theorem lastOf_append_singleton {α : Type} (x : α) (l : List α) (c : α) : lastOf x (l ++ [c]) = c := by
+  induction l generalizing x with
+  | nil => rfl
+  | cons y t ih => exact ih y
+
+theorem telescope (f : ℝ → ℝ) (x : V3 ℝ) (l : List (V3 ℝ)) (s0 : ℝ)
+    (h : ∀ v ∈ x :: l, hz v ≠ 0) :
+    (((pairs (x :: l)).foldl (fun s p => s + lonIncrement (realFn f) p.1 p.2) s0 : ℝ) : Real.Angle)
+      = (s0 : Real.Angle) + ((Complex.arg (hz (lastOf x l)) : Real.Angle)
+          - (Complex.arg (hz x) : Real.Angle)) := by
+  induction l generalizing x s0 with
+  | nil => simp [pairs, lastOf]
+  | cons y t ih =>
+    have hx := h x List.mem_cons_self
+    have hy := h y (List.mem_cons_of_mem _ List.mem_cons_self)
+    show (((pairs (y :: t)).foldl _ (s0 + lonIncrement (realFn f) x y) : ℝ) : Real.Angle) = _
+    rw [ih y (s0 + lonIncrement (realFn f) x y) (fun v hv => h v (List.mem_cons_of_mem _ hv)),
+      Real.Angle.coe_add, lonIncrement_angle f x y hx hy]
+    show _ = (s0 : Real.Angle) + ((Complex.arg (hz (lastOf y t)) : Real.Angle) - _)
+    abel
+
+/-- the edges of the closed ring through the corners -/
+def ringEdges (cs : List (V3 ℝ)) : List (Edge ℝ) :=
+  (Oracle.cyc cs).map fun p => ⟨p.1, p.2, 0, 0, 0, 0⟩
+
+/-- **winding_multiple_of_two_pi**: for EVERY closed ring of corners off the polar axis the sum of the
+    wrapped longitude increments is an integer multiple of `2π` — so the repaired pole test
+    `|winding| < π` separates "does not go around the axis" (`0`) from "goes around" (`±2π, …`) by a
+    full `π`, with no reference meridian and no touch cases. -/
+theorem winding_multiple_of_two_pi (f : ℝ → ℝ) (c : V3 ℝ) (cs : List (V3 ℝ))
+    (h : ∀ v ∈ c :: cs, hz v ≠ 0) :
+    ∃ k : ℤ, winding (realFn f) (ringEdges (c :: cs)) = k * (2 * Real.pi) := by
+  have hw : winding (realFn f) (ringEdges (c :: cs))
+      = (pairs (c :: (cs ++ [c]))).foldl (fun s p => s + lonIncrement (realFn f) p.1 p.2) 0 := by
+    unfold winding ringEdges
+    rw [List.foldl_map, cyc_eq_pairs]
+    rfl
+  have ht := telescope f c (cs ++ [c]) 0 (by
+    intro v hv
+    rcases List.mem_cons.mp hv with rfl | hv
+    · exact h _ List.mem_cons_self
+    · rcases List.mem_append.mp hv with hv | hv
+      · exact h v (List.mem_cons_of_mem _ hv)
+      · rw [List.mem_singleton.mp hv]; exact h _ List.mem_cons_self)
+  rw [← hw] at ht
+  rw [lastOf_append_singleton] at ht
+  simp only [Real.Angle.coe_zero, zero_add, sub_self] at ht
+  obtain ⟨n, hn⟩ := Real.Angle.coe_eq_zero_iff.mp ht
+  exact ⟨n, by rw [← hn]; simp [zsmul_eq_mul]⟩
+
+/-- **pole_flag_iff_winding**: for EVERY closed ring of corners off the polar axis whose edges do not
+    touch a pole, the repaired `_pole_point_inside_polygon` flags a pole exactly when the boundary winds
+    about the axis (winding number `k ≠ 0`), and then it flags exactly ONE of the two poles.
+    (That the winding number of a convex face is `±1` iff a pole lies strictly inside — the
+    argument principle for the projected polygon — is not proved; it is what the driver's
+    orientation-determinant oracle checks on every generated face.) -/
+theorem pole_flag_iff_winding (f : ℝ → ℝ) (c : V3 ℝ) (cs : List (V3 ℝ))
+    (h : ∀ v ∈ c :: cs, hz v ≠ 0)
+    (hnt : ∀ north, touchesPole (realFn f) north (ringEdges (c :: cs)) = false) :
+    ∃ k : ℤ, winding (realFn f) (ringEdges (c :: cs)) = k * (2 * Real.pi) ∧
+      ((poleInsideWinding (realFn f) true (ringEdges (c :: cs)) = true ∨
+        poleInsideWinding (realFn f) false (ringEdges (c :: cs)) = true) ↔ k ≠ 0) ∧
+      ¬ (poleInsideWinding (realFn f) true (ringEdges (c :: cs)) = true ∧
+         poleInsideWinding (realFn f) false (ringEdges (c :: cs)) = true) := by
+  obtain ⟨k, hk⟩ := winding_multiple_of_two_pi f c cs h
+  refine ⟨k, hk, ?_⟩
+  have hpi := Real.pi_pos
+  unfold poleInsideWinding
+  simp only [hnt, Bool.false_eq_true, if_false]
+  have ea : ∀ x, (realFn f).abs x = |x| := fun _ => rfl
+  have ep : (realFn f).pi = Real.pi := rfl
+  simp only [ea, ep, hk]
+  by_cases hk0 : k = 0
+  · subst hk0
+    simp [hpi]
+  · have hge : Real.pi ≤ |(k : ℝ) * (2 * Real.pi)| := by
+      rw [abs_mul, abs_of_pos (by positivity : (0 : ℝ) < 2 * Real.pi)]
+      have h1 : (1 : ℝ) ≤ |(k : ℝ)| := by
+        have : (1 : ℤ) ≤ |k| := Int.one_le_abs hk0
+        exact_mod_cast this
+      nlinarith
+    have hnlt : ¬ |(k : ℝ) * (2 * Real.pi)| < Real.pi := not_lt.mpr hge
+    simp only [hnlt, if_false]
+    cases (decide (0 < (k : ℝ) * (2 * Real.pi)) == isCcw (ringEdges (c :: cs))) <;> simp [hk0]
+
+
+/-- non-vacuity: a square ring around the north pole (direction vectors) keeps off the axis -/
+example : ∃ k : ℤ, winding (realFn id)
+    (ringEdges [⟨1, 0, 1⟩, ⟨0, 1, 1⟩, ⟨-1, 0, 1⟩, ⟨0, -1, 1⟩]) = k * (2 * Real.pi) :=
+  winding_multiple_of_two_pi id _ _ (by
+    intro v hv
+    simp only [List.mem_cons, List.not_mem_nil, or_false] at hv
+    rcases hv with rfl | rfl | rfl | rfl <;> simp [hz, Complex.ext_iff])
+
+end windingThm
 
 end UxVerif.C13
